@@ -236,6 +236,54 @@ def real_parse1(data):
     return 'some %d %s' % (n, wire.show(ty, ch, payload))
 
 
+# ------------------------------------------------------------------------------------------------
+# reconnect with the real reader threads (virtual runtime): exactly one reader consumes the new stream
+# ------------------------------------------------------------------------------------------------
+def reconnect_one(args):
+    cycles, calls, seed = args
+    import amqpstorm
+    from harness import refbroker, vrt
+    out = {}
+
+    def scenario(ctx):
+        conn = amqpstorm.Connection('localhost', 'guest', 'guest', heartbeat=0, timeout=1)
+        for c in range(cycles):
+            ch = conn.channel(rpc_timeout=5)
+            for k in range(calls):
+                r = ch.queue.declare('q%d-%d' % (c, k))
+                if r.get('queue') != 'q%d-%d' % (c, k):
+                    out['wrong_reply'] = (c, k, r)
+            conn.close()
+            if c + 1 < cycles:
+                conn.open()
+        out['brokers'] = [(b.names_in(), list(b.violations)) for b in ctx.net.brokers]
+
+    ctx = vrt.run_scenario(scenario, refbroker.factory(refbroker.Policy()), seed=seed, p_preempt=0.15, p_jump=0.05,
+                           fair_time=(seed % 2 == 1), repo_path=str(common.REPO), max_steps=2000000, real_timeout=60.0)
+    out['abort'] = ctx.sched.abort_reason
+    out['excs'] = [(t.name, repr(t.exc)) for t in ctx.sched.threads if t.exc is not None]
+    return out
+
+
+def reconnect_batch(rep, rng, n):
+    from harness import par
+    jobs = [(rng.randint(2, 4), rng.randint(1, 3), rng.randrange(1 << 30)) for _ in range(n)]
+    for (cycles, calls, seed), r in zip(jobs, par.pmap(reconnect_one, jobs)):
+        replay = {'kind': 'reconnect', 'cycles': cycles, 'calls': calls, 'seed': seed, 'frames_hex': [], 'chunks_hex': []}
+        rep.case(('reconnect', cycles, calls, seed), True, sample={'reconnect': [cycles, calls]})
+        rep.count('reconnect_cycles', cycles)
+        names = [ns for ns, _ in r.get('brokers', [])]
+        twice = [n for ns in names for n in ('Connection.StartOk', 'Connection.TuneOk', 'Connection.Open') if ns.count(n) > 1]
+        if twice:
+            rep.violation('C02/reconnect/frame-processed-twice', 'the broker sent its handshake frame once and got %s more than once '
+                          '(cycles=%d)' % (twice[0], cycles), replay)
+        elif r.get('wrong_reply') or any(v for _, v in r.get('brokers', [])):
+            rep.violation('C02/reconnect/stream-garbled', 'after a reconnect: %r %r' % (r.get('wrong_reply'), [v for _, v in r.get('brokers', []) if v][:1]), replay)
+        elif r['excs'] or r['abort'] != 'all application threads finished':
+            rep.violation('C02/reconnect/later-traffic-not-understood', 'close()/open() x %d on one object, every call answered promptly by the '
+                          'broker: %s %r' % (cycles, r['abort'], r['excs'][:1]), replay)
+
+
 def check(rep):
     rng = random.Random(common.seed() * 7919 + 2)
     thorough = rep.tier == 'thorough'
@@ -331,6 +379,9 @@ def check(rep):
         expect.append(real_parse1(data))
         meta.append(('parse1:' + kind, [data.hex()], []))
 
+    # -- reconnects with the real reader threads ---------------------------------------------------
+    reconnect_batch(rep, rng, 40 if not thorough else 1500)
+
     # -- run the model and diff --------------------------------------------------------------------
     if rep.build.driver_ok:
         got = common.run_driver(lines)
@@ -345,6 +396,13 @@ def check(rep):
 def replay(data):
     """Re-run one recorded stream/chunking on the real code and print what happened."""
     r = data['replay']
+    if r.get('kind') == 'reconnect':
+        o = reconnect_one((r['cycles'], r['calls'], r['seed']))
+        bad = bool(o['excs']) or o['abort'] != 'all application threads finished' or bool(o.get('wrong_reply')) or \
+            any(v for _, v in o.get('brokers', [])) or any(ns.count('Connection.StartOk') > 1 for ns, _ in o.get('brokers', []))
+        print(o['abort'], o['excs'][:2])
+        print('VIOLATION reproduced' if bad else 'property holds on this input')
+        return 1 if bad else 0
     raws = [bytes.fromhex(h) for h in r['frames_hex']]
     chunks = [bytes.fromhex(h) for h in r['chunks_hex']]
     frs = [wire.decode(x) for x in raws]
